@@ -15,7 +15,7 @@ from harness import lib_piter_real as lr
 
 PID = 'C13'
 TITLE = 'Parallel iteration yields the sequential multiset and releases its threads'
-LEAN_MODULES = ['MlModel.Properties.C13', 'MlModel.Properties.C13Two', 'MlModel.Witness.C13']
+LEAN_MODULES = ['MlModel.Properties.C13', 'MlModel.Properties.C13Two', 'MlModel.Properties.C13Interrupt', 'MlModel.Witness.C13']
 TRUSTED = [
     'scheduler shim (harness/sched/shim.py): CPython Lock/RLock/Condition/queue semantics and a thread pool that starts a '
     'submitted task when fewer than max_workers tasks run and whose shutdown() joins; one atomic step = one synchronisation '
